@@ -190,6 +190,7 @@ func TestVerifRecC10(t *testing.T) {
 		err2 := c.UnmarshalBinary(in)
 		e := ev("unmarshal")
 		e["in"], e["ok"], e["after"], e["cok"], e["cafter"] = vb(in), err == nil, vb(after), err2 == nil, vb(c[:])
+		e["rcv"] = vpt(vev{}, &p) // the receiver itself: after a failure it must be a VALID representation of the identity
 		e["cert"] = verifSqrtCert(in)
 		_, err3 := NewCompressedEdwardsYFromBytes(in)
 		e["nok"] = err3 == nil
